@@ -244,8 +244,10 @@ Definition p_directivedef (d : directivedef) : list wop :=
   ++ p_opt (fun t => W (s " ") :: p_ident t) (dd_repeatable d)
   ++ W (s " on") :: flat_map (fun l => W (s " | ") :: p_ident l) (dd_locs d) ++ [W [LF]].
 
+(** since /repo 6472a53: without root operations no braces are written, only a line feed *)
 Definition p_schemaext (e : schemaext) : list wop :=
-  W (s "extend schema ") :: glued_dirs (se_dirs e) ++ p_rootops (se_ops e).
+  W (s "extend schema ") :: glued_dirs (se_dirs e)
+  ++ match se_ops e with [] => [W [LF]] | _ => p_rootops (se_ops e) end.
 
 Definition p_typeext (t : typeext) : list wop :=
   match t with
